@@ -57,6 +57,9 @@ typedef struct T {
 	void *pend_addr;
 	int pend_size;
 	int prio;
+	/* crash injection (vs_kill_after): never scheduled again once steps_taken reaches kill_after */
+	long steps_taken;
+	long kill_after;          /* < 0: never killed */
 } T;
 
 typedef struct { char name[48]; char *ptr; size_t size; size_t elem; int weak; } Reg;
@@ -207,6 +210,9 @@ static int enabled(T *t)
 	}
 }
 
+/* a killed thread counts as finished: it stays parked for ever (process death) */
+static int killed(T *t) { return t->kill_after >= 0 && t->steps_taken >= t->kill_after; }
+
 static void finalize_pending(T *t)
 {
 	if (t->pend_ev >= 0) {
@@ -246,7 +252,7 @@ static void pick_next(void)
 	int ne = 0, nn = 0, ndone = 0;
 	for (int i = 0; i < nthreads; i++) {
 		T *t = threads[i];
-		if (t->wait_kind == W_DONE) { ndone++; continue; }
+		if (t->wait_kind == W_DONE || killed(t)) { ndone++; continue; }
 		if (enabled(t)) { en[ne++] = t; if (!t->spinning) ns[nn++] = t; }
 	}
 	if (ndone == nthreads) { end_run(VS_OK); return; }
@@ -263,7 +269,7 @@ static void pick_next(void)
 		n = threads[tid];
 		if (flag == 2) {
 			if (!(n->wait_kind == W_CV && mtx_get(n->cv_mutex)->owner == -1)) { end_run(VS_REPLAY_DIVERGED); return; }
-		} else if (!enabled(n)) { end_run(VS_REPLAY_DIVERGED); return; }
+		} else if (!enabled(n) || killed(n)) { end_run(VS_REPLAY_DIVERGED); return; }
 	} else {
 		if (ne == 0) {
 			/* maybe a spurious condvar wake-up is the only way on: not a real way out */
@@ -305,6 +311,7 @@ static void pick_next(void)
 		n->woke_spurious = 1;
 	}
 	n->flag_spurious = (flag == 1);
+	n->steps_taken++;
 	sched_add(n->tid, flag);
 	n->go = 1;
 	__real_pthread_cond_signal(&n->cv);
@@ -397,7 +404,7 @@ int vs_spawn(vs_fn fn, void *arg)
 {
 	if (nthreads == MAXT) { fprintf(stderr, "vsched: too many threads\n"); abort(); }
 	T *t = (T *)calloc(1, sizeof(T));
-	t->tid = nthreads; t->fn = fn; t->arg = arg; t->pend_ev = -1;
+	t->tid = nthreads; t->fn = fn; t->arg = arg; t->pend_ev = -1; t->kill_after = -1;
 	pthread_cond_init(&t->cv, NULL);
 	threads[nthreads++] = t;
 	return t->tid;
@@ -419,6 +426,7 @@ void vs_policy_replay(const char *schedule)
 }
 void vs_set_spurious(int c, int v) { cas_permille = c; cv_permille = v; }
 void vs_set_max_steps(long n) { max_steps = n; }
+void vs_kill_after(int tid, long k) { if (tid >= 0 && tid < nthreads) threads[tid]->kill_after = k; }
 
 int vs_run(void)
 {
